@@ -10,6 +10,8 @@ structure St where
   basic : Option Named := none
   /-- the entry `mpt_rawdata_type_traits()` (mptplot) registered and caches -/
   raw : Option Named := none
+  /-- ids `type_properties<T>::id(true)` obtained and caches (C++ part): pointer type, class type -/
+  prop : List (String × Nat) := []
 
 def sweepMax : Nat := 0x1100
 
@@ -316,6 +318,25 @@ def stepX (st : St) (w : List String) : St × String :=
         ({ st with r := r2, basic := some e, s := st.s ++ [{ kind := .mtype, id := e.id, name := e.name, desc := ptrDesc }] },
           s!"R ok fresh={yn fresh} range={yn (inRangeK .mtype e.id)} name={hexName e.name} {fmtTraits e.traits} | C id={e.id} | I - | S {alts}")
       | none => (st, s!"R refused | C - | I - | S {alts}")
+  | [op, which] =>
+    if (op = "propid" ∨ op = "propid0") ∧ (which = "ptr" ∨ which = "obj") then
+      -- `type_properties<T>::id(obtain)`: registers the traits of the C++ type once (mpt_type_add) and caches the id
+      let d : Desc := if which = "ptr" then ptrDesc else { size := 40, init := true, fini := true }
+      match st.prop.find? (·.1 = which) with
+      | some (_, id) =>
+        let l := s!"ok fresh=same range=yes {fmtDesc d}"
+        (st, s!"R ok fresh=same range=yes {fmtTraitsOpt (traits st.r id)} | C id={id} | I - | S {l} ; *")
+      | none =>
+        if op = "propid0" then (st, "R refused | C - | I err=-3 | S refused ; *") else
+        let alts := altsAdd st.s .generic none [d] false
+        match genericAdd st.r d with
+        | (r', .ok id) =>
+          let fresh := !issuedBefore st.s id
+          ({ st with r := r', prop := st.prop ++ [(which, id)], s := st.s ++ [{ kind := .generic, id := id, name := none, desc := d }] },
+            s!"R ok fresh={yn fresh} range={yn (inRangeK .generic id)} {fmtTraitsOpt (traits r' id)} | C id={id} | I - | S {alts}")
+        | (_, .err e) => (st, s!"R refused | C - | I err={e.name} | S {alts}")
+        | _ => (st, s!"R FAULT | C - | I - | S {alts}")
+    else stepT st ["t", op, which]
   | rest => stepT st ("t" :: rest)
 
 
